@@ -57,7 +57,8 @@ def subst(t, env, this):
     if 'This' in ns and this is not None:
         i = ns.index('This')
         comp = this[3] + (('<' + ', '.join(cpp_type(a) for a in this[4]) + '>') if this[4] else '')
-        return ('T', const, tuple(ns[:i]) + tuple(this[2]) + (comp,) + tuple(ns[i + 1:]), name, targs2, mark)
+        # DOCS.md: the user writes the namespace in front (`gtsam::This::Enum`); `This` stands for the class name only
+        return ('T', const, tuple(ns[:i]) + (comp,) + tuple(ns[i + 1:]), name, targs2, mark)
     return ('T', const, ns, name, targs2, mark)
 
 
